@@ -134,22 +134,38 @@ class Weaver:
         self._record_item(rel, it, raw, parent=within)
         trait_impl = within is not None and ' for ' in (within.header or '')
         q = '%s::%s%s' % (self.cur['name'], (self._impl_short(within) + '::') if within else '', name)
-        body = self._apply_rewrites(raw, rewrites, q)
-        body = self._normalise(body, 'fn', trait_impl=trait_impl)
-        if vis is not None:
-            body = re.sub(r'^pub\s+', '', body) if vis == '' else body
-        # token-level weaving
-        if trusted:
-            # N8: a trusted function keeps its signature and gets an assumed contract; the body is outside the verifier
+        lost = None
+        try:
+            body = self._apply_rewrites(raw, rewrites, q)
+            body = self._normalise(body, 'fn', trait_impl=trait_impl)
+            if vis is not None:
+                body = re.sub(r'^pub\s+', '', body) if vis == '' else body
+            # token-level weaving
+            if trusted:
+                # N8: a trusted function keeps its signature and gets an assumed contract; the body is outside the verifier
+                body = self._drop_body(body, q)
+                self._rule('N8', q, 'fn body', 'external_body, assumed contract')
+            body = self._weave_fn(body, q, ret, requires, ensures, loops or {}, before, after, head, mutself, decreases, ensures_raw, no_unwind)
+        except LostAnchor as e:
+            if trusted:
+                raise
+            # The annotations written for this function no longer apply to its text (it was restructured).  The function is
+            # NOT verified in this run: it is kept under its contract only, so that its callers and every property whose
+            # chain does not contain it can still be decided; properties that list it become inconclusive (check.py).
+            lost = str(e)
+            body = self._normalise(raw, 'fn', trait_impl=trait_impl)
+            if vis is not None:
+                body = re.sub(r'^pub\s+', '', body) if vis == '' else body
             body = self._drop_body(body, q)
-            self._rule('N8', q, 'fn body', 'external_body, assumed contract')
-        body = self._weave_fn(body, q, ret, requires, ensures, loops or {}, before, after, head, mutself, decreases, ensures_raw, no_unwind)
+            body = self._weave_fn(body, q, ret, requires, ensures, {}, (), (), '', mutself, decreases, ensures_raw, no_unwind)
+            self.report.setdefault('lost', []).append({'fn': q, 'props': list(props), 'reason': lost})
         for a in attrs:
             body = '#[%s]\n' % a + body
-        if trusted:
+        if trusted or lost:
             body = '#[verifier::external_body]\n' + body
+        if trusted:
             self.report['trusted_hoot'].append(q)
-        self.report['functions'].append({'path': q, 'props': list(props), 'kind': 'trusted' if trusted else 'exec',
+        self.report['functions'].append({'path': q, 'props': list(props), 'kind': 'trusted' if trusted else ('lost' if lost else 'exec'),
                                          'origin': '%s:%d' % (rel, text.count('\n', 0, it.start) + 1)})
         self.cur['chunks'].append('// @FN %s\n%s\n// @ENDFN\n' % (q, body))
 
